@@ -228,7 +228,7 @@ Proof.
       destruct (commit_active (fs_mount s1 (sn_id sn) lm true) t key (set_remote l) true) as [s3 x] eqn:CA.
       destruct x as [e|].
       * destruct e; try (simpl in H; contradiction). destruct H as [H|[]]. inversion H; subst img. exact L1.
-      * apply commit_ok in CA. destruct CA as [_ [j [_ [_ [_ E3]]]]].
+      * apply commit_ok in CA. destruct CA as [_ [j [np [_ [_ [_ [_ [_ E3]]]]]]]].
         destruct H as [H|[H|[]]]; inversion H; subst img; [exact L1|].
         subst s3. simpl. destruct (Nat.eqb_spec t n); [subst; tauto|].
         rewrite lookup_del_ne; [exact L1|]. intros Q. apply NT. left. exact Q.
